@@ -669,7 +669,8 @@ impl Conv {
                 self.absorb_credits()?;
                 let Some(pi) = self.pick(*port, |p| p.rx.is_some() && !p.peer_send_finished) else { return Ok(false) };
                 let n = ports.len();
-                let cost = 4 * n as u64;
+                // A port message without ports is charged one credit (like an empty data message).
+                let cost = (4 * n as u64).max(1);
                 if cost > self.ports[pi].avail || cost > self.real_cs {
                     return Ok(false);
                 }
